@@ -498,6 +498,11 @@ func entitySpans(p pProject, texts map[string]string) []pSpan {
 		if a, b, ok := find(c.Pkg+"/"+c.File, "type "+c.Name+" struct"); ok {
 			out = append(out, pSpan{c.Name, "", c.Pkg + "/" + c.File, a, b})
 		} else if a, b, ok := find(c.Pkg+"/"+c.File, c.Name+" struct"); ok {
+			// inside `type ( … )`: the group's own doc comment belongs to the entity too (gleece reads it when the
+			// spec itself has none)
+			if ga, _, gok := find(c.Pkg+"/"+c.File, "// Declarations of the "+c.Name+" group"); gok && ga < a {
+				a = ga
+			}
 			out = append(out, pSpan{c.Name, "", c.Pkg + "/" + c.File, a, b})
 		}
 		for _, m := range c.Methods {
